@@ -256,11 +256,12 @@ func (it *FlatIterator) NextValid() (int, int, error) {
 	}
 }
 
-// NextInvalid returns the index of the current coordinate. Identical to Next for FlatIterator
-// also returns the number of increments to get to next invalid element (1 or -1 in reverse case).
+// NextInvalid returns the index of the next invalid element. A FlatIterator has no invalid elements:
+// the iterator is exhausted, and the number of increments to the end is returned as the skip count.
 // Like NextValid, this method's purpose is to maintain consistency with the masked iterator,
 // for which the step between invalid elements can be anywhere from 0 to the  tensor's length
 func (it *FlatIterator) NextInvalid() (int, int, error) {
+	it.done = true
 	if it.reverse {
 		return -1, -it.lastIndex, noopError{}
 	}
